@@ -656,6 +656,8 @@ class Emitter:
                     return '((size_t)%s(%s))' % (fn, self.ctype(n['argType']))
                 return '((size_t)%s(%s))' % (fn, self.ctype(inner[0]['type']).rstrip('*') if False else self.ctype(inner[0]['type']))
             raise Abort('type trait expr ' + str(n.get('name')))
+        if k == 'AtomicExpr':
+            return self.atomic(n)
         if k == 'CallExpr':
             return self.call(n)
         if k == 'CXXOperatorCallExpr':
@@ -1211,6 +1213,41 @@ class Emitter:
         if e.get('kind') in ('CXXConstructExpr',) and not e.get('inner') and '[' in T:
             return pad + self.decl(T, name) + ';\n'
         return pad + '%s = %s;\n' % (self.decl(T, name), self.E(e))
+
+    ATOMIC_OPS = {'add': '+', 'sub': '-', 'and': '&', 'or': '|', 'xor': '^'}
+
+    def atomic(self, n):
+        """GCC __atomic_* builtins on scalars.  Clang's JSON dump carries no operation name, so it is read from the source text of the
+        node (abort when it is not one of the forms below).  The verified text is sequential (no property here is about threads), so
+        each becomes the plain read / write / read-modify-write of *ptr it performs: the accesses stay visible to the pointer checks
+        and to the assigns clause.  Sub-expression order in the AST: ptr, memory order, value."""
+        m = re.match(r'\s*(__atomic_\w+)\s*\(', self.src_text(n))
+        if not m:
+            raise Abort('AtomicExpr: unrecognised source form')
+        op = m.group(1)
+        inner = [c for c in n.get('inner', [])]
+        PT = self.ctype(inner[0]['type'])
+        if not PT.endswith('*') or PT[:-1].strip() not in INT_BITS:
+            raise Abort('AtomicExpr on ' + PT)
+        T = PT[:-1].strip()
+        ptr = self.E(inner[0])
+        self.tmp_counter = getattr(self, 'tmp_counter', 0) + 1
+        pv, tv = '_avm_ap%d' % self.tmp_counter, '_avm_at%d' % self.tmp_counter
+        if op == '__atomic_load_n' and len(inner) == 2:
+            return '(*(%s))' % ptr
+        if op == '__atomic_store_n' and len(inner) == 3:
+            return '((void)(*(%s) = (%s)(%s)))' % (ptr, T, self.E(inner[2]))
+        if op == '__atomic_exchange_n' and len(inner) == 3:
+            return '({ %s *%s = %s; %s %s = *%s; *%s = (%s)(%s); %s; })' % (T, pv, ptr, T, tv, pv, pv, T, self.E(inner[2]), tv)
+        m2 = re.match(r'__atomic_fetch_(add|sub|and|or|xor)$', op)
+        if m2 and len(inner) == 3:
+            return '({ %s *%s = %s; %s %s = *%s; *%s = (%s)(%s %s (%s)(%s)); %s; })' % (
+                T, pv, ptr, T, tv, pv, pv, T, tv, self.ATOMIC_OPS[m2.group(1)], T, self.E(inner[2]), tv)
+        m2 = re.match(r'__atomic_(add|sub|and|or|xor)_fetch$', op)
+        if m2 and len(inner) == 3:
+            return '({ %s *%s = %s; *%s = (%s)(*%s %s (%s)(%s)); *%s; })' % (
+                T, pv, ptr, pv, T, pv, self.ATOMIC_OPS[m2.group(1)], T, self.E(inner[2]), pv)
+        raise Abort('AtomicExpr ' + op)
 
     def src_text(self, n):
         f = self.cur.get('file')
